@@ -20,7 +20,31 @@ def _consumed_here(parent, node):
     return False
 
 
-def generator_sites(mod):
+def _is_ctor(repo, mod, qn, call):
+    f = call.func
+    if isinstance(f, ast.Name):
+        if f.id == "cls":
+            return True
+        r = repo.resolve_name(mod.name, f.id)
+        return bool(r and r[1] in repo.modules[r[0]].classes)
+    return False
+
+
+def _kept(repo, mod, qn, parents, node):
+    """how the value of `node` (a generator expression, or the single read of the name it is bound to) is kept, or None"""
+    p = parents.get(node)
+    if isinstance(p, ast.Assign) and any(isinstance(t, (ast.Attribute, ast.Subscript)) for t in p.targets):
+        return "stored in `%s`" % ast.unparse(p.targets[0])
+    if isinstance(p, ast.keyword):
+        p2 = parents.get(p)
+        if isinstance(p2, ast.Call) and _is_ctor(repo, mod, qn, p2):
+            return "passed to the constructor `%s`" % ast.unparse(p2.func)
+    if isinstance(p, ast.Call) and node in p.args and _is_ctor(repo, mod, qn, p):
+        return "passed to the constructor `%s`" % ast.unparse(p.func)
+    return None
+
+
+def generator_sites(mod, repo=None):
     """-> (generator expressions inspected, [(qualname, node, description)])"""
     hits, n = [], 0
     for qn, fn in mod.functions.items():
@@ -35,32 +59,31 @@ def generator_sites(mod):
             p = parents.get(g)
             if _consumed_here(p, g):
                 continue
-            if isinstance(p, ast.For) and p.iter is g:
-                continue
-            if isinstance(p, ast.comprehension) and p.iter is g:
+            k = _kept(repo, mod, qn, parents, g) if repo is not None else None
+            if k:
+                hits.append((qn, g, "the generator `%s` is %s" % (ast.unparse(g)[:50], k)))
                 continue
             if isinstance(p, ast.Assign) and len(p.targets) == 1 and isinstance(p.targets[0], ast.Name):
                 name = p.targets[0].id
                 uses = [x for x in ast.walk(fn) if isinstance(x, ast.Name) and x.id == name and isinstance(x.ctx, ast.Load)]
                 stores = [x for x in ast.walk(fn) if isinstance(x, ast.Name) and x.id == name and isinstance(x.ctx, ast.Store)]
-                if len(stores) == 1 and len(uses) == 1:
-                    u = uses[0]
-                    pu = parents.get(u)
+                if len(stores) != 1:
+                    continue
+                if len(uses) >= 2:
+                    hits.append((qn, g, "the generator `%s` is bound to `%s`, which is read %d times" % (ast.unparse(g)[:50], name, len(uses))))
+                    continue
+                for u in uses:
+                    q = parents.get(u)
                     in_loop = False
-                    q = pu
                     while q is not None and q is not fn:
-                        if isinstance(q, (ast.For, ast.While)) and u is not getattr(q, "iter", None):
+                        if isinstance(q, (ast.For, ast.While)) and u is not getattr(q, "iter", None) and not any(p.targets[0] is y for y in ast.walk(q)):
                             in_loop = True
                         q = parents.get(q)
-                    if not in_loop and (_consumed_here(pu, u) or (isinstance(pu, ast.For) and pu.iter is u)):
-                        continue
-                    hits.append((qn, g, "the generator `%s` is kept in `%s` and handed on (`%s`)" % (ast.unparse(g)[:50], name, ast.unparse(pu)[:50] if pu is not None else "?")))
-                else:
-                    hits.append((qn, g, "the generator `%s` is bound to `%s`, which is read %d times" % (ast.unparse(g)[:50], name, len(uses))))
-                continue
-            what = "returned" if isinstance(p, ast.Return) else ("stored in `%s`" % ast.unparse(p.targets[0]) if isinstance(p, ast.Assign) else
-                                                                  "passed to `%s`" % ast.unparse(p.func)[:40] if isinstance(p, ast.Call) else "kept")
-            hits.append((qn, g, "the generator `%s` is %s" % (ast.unparse(g)[:50], what)))
+                    k = _kept(repo, mod, qn, parents, u) if repo is not None else None
+                    if k:
+                        hits.append((qn, g, "the generator `%s` is bound to `%s` and %s" % (ast.unparse(g)[:50], name, k)))
+                    elif in_loop:
+                        hits.append((qn, g, "the generator `%s` is bound to `%s`, which is read inside a loop" % (ast.unparse(g)[:50], name)))
     return n, hits
 
 
@@ -68,7 +91,7 @@ def generator_obligation(ctx, modnames, what):
     out, total = [], 0
     for mn in modnames:
         mod = ctx.repo.module(mn)
-        n, hits = generator_sites(mod)
+        n, hits = generator_sites(mod, ctx.repo)
         total += n
         for qn, g, desc in hits:
             out.append(ctx.bad("%s:%s" % (mn, qn), "%s instead of being consumed on the spot: whatever holds it can walk it once, every later walk is empty (%s)" % (desc, what), g, mod,
